@@ -9,6 +9,8 @@ mod analyze;
 mod defpasses;
 mod isolate;
 mod dom;
+mod dump;
+mod lift;
 
 pub fn with_catch<F: FnOnce() -> String + panic::UnwindSafe>(f: F) -> String {
     match panic::catch_unwind(f) {
@@ -76,6 +78,13 @@ fn main() {
             for line in stdin.lock().lines() {
                 let line = line.unwrap();
                 let reply = with_catch(move || dom::handle(&line));
+                writeln!(out, "{}", reply).unwrap();
+            }
+        }
+        "lift" => {
+            for line in stdin.lock().lines() {
+                let line = line.unwrap();
+                let reply = with_catch(move || lift::handle(&line));
                 writeln!(out, "{}", reply).unwrap();
             }
         }
